@@ -5,7 +5,7 @@ CONSTANTS NAcc = 1
           MaxDiffs = {1}
           HistLimits = {0, 1}
           Policies = {"any"}
-          Asyncs = {FALSE}
+          Asyncs = {FALSE, TRUE}
           MaxId = 2
 INVARIANTS TypeOK Reopens Consistent SyncedCoversPersisted
 PROPERTIES RecoverRestores RecoverFailKeeps
